@@ -91,6 +91,9 @@ def rule_escape(rep: Report, repo: Repo) -> None:
                         proof = None
                 elif base.startswith('unpack('):
                     proof = 'CONST: unpack of a one-field format returns a 1-tuple'
+                if proof is None:
+                    from ..excflow import range_bounded_index
+                    proof = range_bounded_index(s.node)          # type: ignore[arg-type]
             elif s.kind == 'binop':
                 right = s.node.right          # type: ignore[attr-defined]
                 if isinstance(right, ast.Constant) and isinstance(right.value, int) and right.value > 0:
@@ -123,7 +126,7 @@ def unclassified_calls(repo: Repo) -> List[str]:
         for n in walk_no_nested(fn):
             if isinstance(n, ast.Call) and id(n) not in raised:
                 d = dotted(n.func)
-                if d.startswith('self.') or d in known or d in SAFE_BUILTINS or d.split('.')[-1] in ('append', 'read', 'items'):
+                if d.startswith('self.') or d in known or d in SAFE_BUILTINS or d.split('.')[-1] in ('append', 'read', 'items', 'sort', 'extend', 'values', 'keys'):
                     continue
                 out.append(f'{R}:{n.lineno} {q}: {d or norm(n.func)[:40]}()')
     return out
@@ -153,6 +156,10 @@ def rule_bounded(rep: Report, repo: Repo) -> None:
             elif it == 'range(data_length, segment_length)':
                 ok = guards.get('segment_length - data_length < _reserved_dict_threshold') is True
                 why = 'only under the dense-tail threshold'
+            elif isinstance(n.iter, ast.Call) and dotted(n.iter.func) == 'range' and 1 <= len(n.iter.args) <= 2 \
+                    and all(isinstance(a, ast.Constant) for a in n.iter.args[:-1]) and isinstance(n.iter.args[-1], ast.Call) \
+                    and dotted(n.iter.args[-1].func) == 'len' and isinstance(n.iter.args[-1].args[0], ast.Name):
+                ok, why = True, f'bounded by the length of the list {norm(n.iter.args[-1].args[0])} already built in memory'
             else:
                 ok, why = False, 'unrecognised file-controlled loop'
             rep.check(ok, 'C10.BOUNDED', f'_init_memory:{it}', why, f'{R}:{n.lineno}')
@@ -185,7 +192,8 @@ def rule_validate_first(rep: Report, repo: Repo) -> None:
 def rule_torn(rep: Report, repo: Repo) -> None:
     rep.rule('C10.TORN', 'structural reasons a strict prefix is rejected: exact-size unpack of header and table, per-word unpack '
              'of exact-size slices (no len//size truncation), one-shot lzma.decompress (raises without the end marker)', 4)
-    rh = repo.func(R, 'Reader._init_header_fields')
+    from ..pyfacts import inline_adjacent_temps
+    rh = inline_adjacent_temps(repo.func(R, 'Reader._init_header_fields'))      # `buf = f.read(n)` / `unpack(fmt, buf)` reads in place
     reads = [norm(c) for c in calls(rh) if dotted(c.func) == 'unpack']
     rep.check(reads == ['unpack(_header_base_format, fjm_file.read(_header_base_size))',
                         'unpack(_header_extension_format, fjm_file.read(_header_extension_size))'], 'C10.TORN', 'header:exact-size-unpack',
